@@ -3,11 +3,11 @@ package fsm
 import (
 	"bytes"
 	"fmt"
-	"os"
-	"sync"
 	"math/rand/v2"
 	"net/netip"
+	"os"
 	"strings"
+	"sync"
 	"testing"
 	"time"
 
